@@ -16,8 +16,8 @@ the field's chain accepts the value read"), supplied per case by the harness fro
   * `C13_with_req_opt`      adding REQ/OPT anywhere in the chain changes neither the deciding member nor
                             the fragment;
   * negative theorems       F34 (DATE/ISO8601 derive `2024-01-15`, which is not a date once read back as
-                            `2024 -01 -15`, and the calendar-impossible `2023-02-30`), C13N1 (CONST[true]
-                            derives `True` and not `true`).
+                            `2024 -01 -15`, and the calendar-impossible `2023-02-30`); regression for the fixed
+                            C13N1 (CONST[true] derives `true`, not `True`).
 -/
 import Octave.Lemmas.Number
 import Octave.Spec.Calendar
@@ -49,9 +49,10 @@ theorem lex_fragHead (toks : List Tok) :
     lexRun true ⟨.top, toks⟩ "x ::= ".toList = ⟨.top, .define :: .name "x".toList :: toks⟩ := by
   simp [lexStep, lexAction, lexTop, isWordChar, isLower, isUpper, isDigit]
 
-theorem constFragment_body (v : Str) : parseFragment true (compileConst v) = some [[.lit v]] := by
+theorem constFragment_body (cv : ConstVal) : parseFragment true (compileConst cv) = some [[.lit (constText cv)]] := by
   have hct := gen_enumConst.2.2.2
   unfold compileConst
+  generalize constText cv = v
   rw [hct, escapeLiteral_eq]
   have hlex : lex true ("x ::= ".toList ++ render [.lit "\"".toList, .var 0, .lit "\"".toList] [v.flatMap esc1]) =
       some [.name "x".toList, .define, .lit v] := by
@@ -111,13 +112,14 @@ theorem enumFragment_body (vals : List Str) (hne : vals ≠ []) :
 
 /-! ## the languages -/
 
-/-- **CONST.**  The value part of a CONST field derives exactly one text: `str(const_value)` (whatever it
-contains — the escaping of the literal is undone by the GBNF reader, `escape_literal_closed`). -/
-theorem C13_const_language (v : Str) :
-    ∃ alts, parseFragment true (compileConst v) = some alts ∧
-      ∀ (g : List (Str × Alts)) (f : Nat) (s : Str), 4 ≤ f → (derivesAlts f g alts s = true ↔ s = v) := by
-  refine ⟨[[.lit v]], constFragment_body v, fun g f s hf => ?_⟩
-  have := derives_lits g [v] s f (by simpa using hf)
+/-- **CONST.**  The value part of a CONST field derives exactly one text: `true` / `false` / `null` for the
+booleans and null (finding C13N1 fixed), `str(const_value)` otherwise — whatever it contains: the escaping
+of the literal is undone by the GBNF reader (`escape_literal_closed`). -/
+theorem C13_const_language (cv : ConstVal) :
+    ∃ alts, parseFragment true (compileConst cv) = some alts ∧
+      ∀ (g : List (Str × Alts)) (f : Nat) (s : Str), 4 ≤ f → (derivesAlts f g alts s = true ↔ s = constText cv) := by
+  refine ⟨[[.lit (constText cv)]], constFragment_body cv, fun g f s hf => ?_⟩
+  have := derives_lits g [constText cv] s f (by simpa using hf)
   simpa using this
 
 /-- **ENUM.**  The value part of an ENUM field derives exactly its members. -/
@@ -152,10 +154,10 @@ example : pyNumberFull "1e5".toList = true ∧ derivesAlts 40 [] numberAlts "1e5
 `accepts t` stands for: the line `FIELD::t` is read by the OCTAVE reader without error and the field's
 constraint chain accepts the value read (decided on the real code by the harness). -/
 
-theorem C13_const (accepts : Str → Bool) (v : Str) (h : accepts v = true) :
-    ∃ alts, parseFragment true (compileConst v) = some alts ∧
+theorem C13_const (accepts : Str → Bool) (cv : ConstVal) (h : accepts (constText cv) = true) :
+    ∃ alts, parseFragment true (compileConst cv) = some alts ∧
       ∀ g f s, 4 ≤ f → derivesAlts f g alts s = true → accepts s = true := by
-  obtain ⟨alts, hp, hl⟩ := C13_const_language v
+  obtain ⟨alts, hp, hl⟩ := C13_const_language cv
   exact ⟨alts, hp, fun g f s hf hd => by rw [(hl g f s hf).mp hd]; exact h⟩
 
 theorem C13_enum (accepts : Str → Bool) (vals : List Str) (hne : vals ≠ []) (h : ∀ v ∈ vals, accepts v = true) :
@@ -293,15 +295,17 @@ that very string is accepted (`validYMD` is the DATE constraint on strings). -/
 theorem C13_date_partial (accepts : Str → Bool) (h : ∀ t, validYMD t = true → accepts t = true) (t : Str)
     (_hd : derivesAlts 40 [] dateAlts t = true) (hv : validYMD t = true) : accepts t = true := h t hv
 
-/-- **C13N1.**  CONST of the boolean `true` is compiled from Python's `str(True)`: the only derivable text is
-`True`; the OCTAVE spelling `true` is not derivable. -/
-theorem C13N1_const_true_witness :
-    ∃ alts, parseFragment true (compileConst "True".toList) = some alts ∧
-      derivesAlts 10 [] alts "True".toList = true ∧ derivesAlts 10 [] alts "true".toList = false := by
-  obtain ⟨alts, hp, hl⟩ := C13_const_language "True".toList
-  refine ⟨alts, hp, (hl [] 10 _ (by decide)).mpr rfl, ?_⟩
-  have := hl [] 10 "true".toList (by decide)
-  cases hd : derivesAlts 10 [] alts "true".toList with
+/-- **C13N1 (fixed).**  CONST of the booleans and null derives the OCTAVE spellings `true` / `false` / `null`
+(which the reader types back to the constant's own value), no longer Python's `True` / `False` / `None`. -/
+theorem C13N1_fixed_regression :
+    constText (.bool true) = "true".toList ∧ constText (.bool false) = "false".toList ∧ constText .null = "null".toList ∧
+    ∃ alts, parseFragment true (compileConst (.bool true)) = some alts ∧
+      derivesAlts 10 [] alts "true".toList = true ∧ derivesAlts 10 [] alts "True".toList = false := by
+  refine ⟨by decide, by decide, by decide, ?_⟩
+  obtain ⟨alts, hp, hl⟩ := C13_const_language (.bool true)
+  refine ⟨alts, hp, (hl [] 10 _ (by decide)).mpr (by decide), ?_⟩
+  have := hl [] 10 "True".toList (by decide)
+  cases hd : derivesAlts 10 [] alts "True".toList with
   | false => rfl
   | true => exact absurd (this.mp hd) (by decide)
 
